@@ -39,7 +39,7 @@ type worker struct {
 
 func newWorker() *worker {
 	e := h.Open(nil)
-	for _, s := range strings.Split(schemaSQL+";"+codeSchemaSQL, ";") {
+	for _, s := range strings.Split(schemaSQL+";"+codeSchemaSQL+";"+hookSchemaSQL, ";") {
 		if strings.TrimSpace(s) != "" {
 			e.MustExec(s)
 		}
@@ -183,6 +183,7 @@ type stats struct {
 	noWriteChecked int64
 	nontrivial     int64
 	faultSteps     int64
+	createTwice    int64
 }
 
 func (a *stats) add(b *stats) {
@@ -197,6 +198,7 @@ func (a *stats) add(b *stats) {
 	a.noWriteChecked += b.noWriteChecked
 	a.nontrivial += b.nontrivial
 	a.faultSteps += b.faultSteps
+	a.createTwice += b.createTwice
 }
 
 func bump(m *sync.Map, k string) {
@@ -281,6 +283,20 @@ var violByTag sync.Map
 var reported int64
 
 func replay(run *mc.Run, path string) {
+	var hc HCase
+	if err := mc.LoadReplay(path, &hc); err == nil && hc.Hook {
+		w := newWorker()
+		fail := w.runHook(hc)
+		fmt.Println(hc.String())
+		fmt.Println("table after: " + w.dumpHooks())
+		if fail != "" {
+			fmt.Println("VERDICT: still violates: " + fail)
+			run.Violation(nil, fail, hc)
+			os.Exit(1)
+		}
+		fmt.Println("VERDICT: agrees with the reference")
+		return
+	}
 	var uc UCase
 	if err := mc.LoadReplay(path, &uc); err == nil && uc.Unique {
 		w := newWorker()
@@ -346,7 +362,7 @@ func main() {
 	// Session / WithContext at every position are the last operation of every
 	// sequence of length <= wrapDepth
 	maxDepth, wrapDepth := 3, 2
-	deadline := time.Now().Add(170 * time.Second)
+	deadline := time.Now().Add(240 * time.Second)
 	if args.Tier == "thorough" {
 		maxDepth, wrapDepth = 4, 3
 		deadline = time.Now().Add(570 * time.Second)
@@ -366,6 +382,7 @@ func main() {
 	}
 
 	uniqueN, uniqueConflicts, partialConflicts, partialHidden := uniqueEnumeration(run, workers[0])
+	hookN, hookFallback := hookEnumeration(run, workers[0])
 
 	var graphs [2]*graph
 	var frontiers [2][]string
@@ -487,6 +504,7 @@ func main() {
 		"found", "found-first-of-many", "found-assign-update", "found-first-of-many-assign-update",
 		"notfound", "notfound-soft-deleted-match", "create-key-collides-soft-deleted", "softdel-live",
 		"upsert-where-true-conflict", "upsert-where-false-conflict",
+		"found+or-not-group", "notfound+or-not-group", "notfound-soft-deleted-match+or-not-group", "second-call-found",
 		"fault-found", "fault-found-first-of-many", "fault-found-assign-update", "fault-notfound",
 		"fault-save-absent-key", "fault-save-existing-key", "fault-upsert-updateall-conflict",
 	}
@@ -498,6 +516,9 @@ func main() {
 		}
 		if partialConflicts == 0 || partialHidden == 0 {
 			run.HarnessError("vacuous: partial-index target conflicts=%d hidden=%d", partialConflicts, partialHidden)
+		}
+		if hookFallback == 0 {
+			run.HarnessError("vacuous: no Save of the hook model took the insert fallback")
 		}
 		if uniqueConflicts == 0 {
 			run.HarnessError("vacuous: no conflict on the unique-column target")
@@ -511,6 +532,7 @@ func main() {
 	run.Assume("created_at / updated_at / the time stored in deleted_at are masked (the property sets tracked timestamps aside); deleted_at is observed as NULL / NOT NULL")
 	run.Assume("RowsAffected is compared except for a batch Create with OnConflict{DoNothing} and caller-supplied keys (ambiguous); the in-memory elements of a batch Create whose OnConflict.Where skipped rows are not compared (table and RowsAffected are); FirstOrCreate with a key taken from the conditions that collides with a soft-deleted row is expected to fail and leave the table unchanged")
 	run.Assume("single-fault variants: a fault is an injected error on one statement (exec/query) of the operation, executed for unwrapped operations on the states that also get the Session/WithContext chains; begin/commit faults are left to C04/C05")
+	run.Assume("with Or/Not/grouped conditions the new record is expected to carry the fields of the Where condition only (what stands under Or/Not selects rows but is not copied); a raw string as the first condition and a group containing Or next to another condition are outside the alphabet (what they contribute to the record is not defined); Or/Not/groups are not combined with Session/WithContext positions")
 	run.Assume("outside the alphabet: pointer to map in Where/Attrs/Assign (not accepted by gorm: assignInterfacesToValue and BuildCondition only know map values and treat *map as a primary-key value); OnConflict with an empty DoUpdates, OnConstraint, Where on DoNothing (not valid SQL), Attrs overlapping the condition columns, all-zero struct in Assign, hooks, associations, Select/Omit")
 	run.Assume("the re-seeded state equals the state reached by the real history up to the masked timestamps; checked once per expanded state by replaying the history on the implementation")
 	run.Finish(map[string]interface{}{
@@ -521,13 +543,14 @@ func main() {
 		"evaluations":                             st.executions,
 		"distinct_nontrivial":                     st.nontrivial,
 		"distinct_outcomes":                       outcomes.Len(),
-		"rule":                                    fmt.Sprintf("BFS from the empty table over all operation sequences of length <= %d, per model (plain, soft-delete twin); a state is the table dump in key order with timestamps masked; every operation of the alphabet (Save x2 of keys 0..3, Create+OnConflict{DoNothing,UpdateAll,DoUpdates over every non-empty subset of name/age/email, constant assignment, UpdateAll and DoUpdates with a Where on excluded vs stored age} on keys 1..3 and two-row batches, soft delete, FirstOrInit/FirstOrCreate with 6 conditions x struct/map x Where/inline, conditions, Attrs and Assign also as pointer to struct, Attrs and Assign in struct/map/key-value form, Session(&Session{}) or WithContext at every position of the chain) is executed on the implementation from every state of depth < %d (plus, for the states that also get the Session/WithContext chains, every unwrapped operation once more per statement it sends with that statement failing in the driver: error required, table unchanged) and compared with the reference map (returned record, RowsAffected, table, driver log); non-trivial = distinct (state, operation) whose step met existing data (key collision, match, invisible soft-deleted match) or built a record from conditions/Attrs/Assign", maxDepth, maxDepth),
+		"rule":                                    fmt.Sprintf("BFS from the empty table over all operation sequences of length <= %d, per model (plain, soft-delete twin); a state is the table dump in key order with timestamps masked; every operation of the alphabet (Save x2 of keys 0..3, Create+OnConflict{DoNothing,UpdateAll,DoUpdates over every non-empty subset of name/age/email, constant assignment, UpdateAll and DoUpdates with a Where on excluded vs stored age} on keys 1..3 and two-row batches, soft delete, FirstOrInit/FirstOrCreate with 6 conditions x struct/map x Where/inline, conditions, Attrs and Assign also as pointer to struct, Attrs and Assign in struct/map/key-value form, Or/Not/grouped conditions around the condition, every writing FirstOrCreate repeated once, Session(&Session{}) or WithContext at every position of the chain) is executed on the implementation from every state of depth < %d (plus, for the states that also get the Session/WithContext chains, every unwrapped operation once more per statement it sends with that statement failing in the driver: error required, table unchanged) and compared with the reference map (returned record, RowsAffected, table, driver log); non-trivial = distinct (state, operation) whose step met existing data (key collision, match, invisible soft-deleted match) or built a record from conditions/Attrs/Assign", maxDepth, maxDepth),
 		"samples":                                 samples.List(),
 		"exhaustive":                              exhaustive,
 		"max_sequence_length":                     maxDepth,
 		"alphabet_size":                           alphaSize,
 		"states_per_depth":                        perDepth,
 		"single_fault_steps":                      st.faultSteps,
+		"first_or_create_repeated_calls":          st.createTwice,
 		"save_idempotence_checks":                 st.saveSecond,
 		"histories_replayed_on_impl":              st.pathReplayed,
 		"first_or_init_steps":                     st.firstOrInit,
@@ -539,6 +562,8 @@ func main() {
 		"step_classes":                            classes,
 		"unique_column_target_cases":              uniqueN,
 		"unique_column_target_conflicts":          uniqueConflicts,
+		"hook_model_save_cases":                   hookN,
+		"hook_model_save_fallback_cases":          hookFallback,
 		"partial_index_target_conflicts":          partialConflicts,
 		"partial_index_same_code_as_soft_deleted": partialHidden,
 		"violations_by_tag_and_kind":              dumpCounts(&violByTag),
@@ -649,6 +674,21 @@ func expandState(run *mc.Run, w *worker, g *graph, m int, key string, ops []Op, 
 				if ffail != "" {
 					report(run, w, Case{Model: m, Path: path, State: nd.st, Op: fop}, fex, fout, ffail)
 				}
+			}
+		}
+		if op.Kind == "first" && op.Fin == 1 && op.Wrap == 0 && out.Writes > 0 {
+			// the identical FirstOrCreate once more: it is stepped against the
+			// reference from the state the first call left (a call that created
+			// a row matching its own conditions must now find that row and the
+			// table must not grow again)
+			mid := final(out)
+			out2, ex2, fail2 := w.step(m, mid, op)
+			ws.transitions++
+			ws.executions++
+			ws.createTwice++
+			w.classes["second-call-"+ex2.Class]++
+			if fail2 != "" {
+				report(run, w, Case{Model: m, Path: append(append([]Op{}, path...), op), State: mid, Op: op}, ex2, out2, "second identical call: "+fail2)
 			}
 		}
 		fs := final(out)
